@@ -367,7 +367,8 @@ void Polygon::fracture(uint64_t max_points, double precision, Array<Polygon*>& r
         }
         sort(coords, num_points);
         Array<double> interior_coords = {0, 0, coords};
-        while (interior_coords.items[0] == coords[0]) ++interior_coords.items;
+        while (interior_coords.items < coords + num_points && interior_coords.items[0] == coords[0])
+            ++interior_coords.items;
         interior_coords.count = num_points - (interior_coords.items - coords);
         while (interior_coords.count > 0 &&
                 interior_coords.items[interior_coords.count - 1] == coords[num_points - 1])
